@@ -36,6 +36,8 @@ structure HInv (S : Nat) (evs : List (List UInt8)) (F A : Nat) (q : PQState) : P
   le : A ≤ F
   /-- the head page starts with an acknowledged event (or nothing was acknowledged yet and it is the first page) -/
   headLt : q.hdr.headId < A ∨ (A = 0 ∧ q.hdr.headId = 0)
+  /-- the head page is not in front of the page in which the header of the last acknowledged event starts -/
+  headGe : A = 0 ∨ (qhdr S evs (A - 1)).1 ≤ q.headPos.1
 
 /-- the reader -/
 structure RInv (P S : Nat) (evs : List (List UInt8)) (F A n : Nat) (r : RState) (a : ASpec) : Prop where
@@ -116,7 +118,7 @@ theorem HInv_afterWriter (S : Nat) (h4 : 4 ≤ S) (evs ext : List (List UInt8)) 
     have e4 : (q.afterWriter w' cb).w = w' := rfl
     refine ⟨by rw [e1, hFF]; exact hH.tail, by rw [e1]; exact hH.start, by rw [e1, hFF]; exact hH.tailSet,
       by rw [e1, hFF]; exact hH.headSet, by rw [e1, hFF]; exact hH.readSet, ?_, ?_, ?_, ?_, hH.totA,
-      by have := hH.le; omega, by rw [e1]; exact hH.headLt⟩
+      by have := hH.le; omega, by rw [e1]; exact hH.headLt, ?_⟩
     · intro h0
       rw [e1, e2, e3, e4, hl2]
       exact AtB_mono S evs ext _ _ A _ (hH.startPos (by omega)) hAl (Nat.le_refl _)
@@ -129,6 +131,10 @@ theorem HInv_afterWriter (S : Nat) (h4 : 4 ≤ S) (evs ext : List (List UInt8)) 
       rw [e2, hl2]; have := hH.inuse; omega
     · show q.totFlushed + cb.getD 0 = w'.tailId
       rw [hcb, hH.totF]; omega
+    · rw [e2]
+      rcases hH.headGe with h | h
+      · exact Or.inl h
+      · right; rw [(qpos_take S evs ext (A - 1) (by omega)).2.1]; exact h
   · -- new events are durable
     have hF'0 : 0 < w'.tailId := by omega
     have hkk : w'.tailId - q.w.tailId ≠ 0 := hk
@@ -152,7 +158,7 @@ theorem HInv_afterWriter (S : Nat) (h4 : 4 ≤ S) (evs ext : List (List UInt8)) 
     have e4 : (q.afterWriter w' cb).w = w' := rfl
     have hrs := e1e
     refine ⟨by rw [e1c, hH.tail]; omega, ?_, by rw [e1d]; simp [hF'0], by rw [e1b]; simp [hF'0],
-      fun _ => hF'0, ?_, ?_, ?_, ?_, hH.totA, by have := hH.le; omega, ?_⟩
+      fun _ => hF'0, ?_, ?_, ?_, ?_, hH.totA, by have := hH.le; omega, ?_, ?_⟩
     · -- startId
       have hs := hH.start
       simp only [QHdr.startId] at hs ⊢
@@ -221,6 +227,15 @@ theorem HInv_afterWriter (S : Nat) (h4 : 4 ≤ S) (evs ext : List (List UInt8)) 
         have hA0 : A = 0 := by have := hH.le; omega
         simp only [hh]
         exact Or.inr ⟨hA0, rfl⟩
+    · rw [e2]
+      by_cases hh : q.hdr.headSet = true
+      · simp only [hh, if_true]
+        rcases hH.headGe with h | h
+        · exact Or.inl h
+        · right; rw [(qpos_take S evs ext (A - 1) (by omega)).2.1]; exact h
+      · have hF0 : ¬ (0 < F) := by
+          intro h0; have := hH.headSet; rw [decide_eq_true h0] at this; exact hh this
+        left; have := hH.le; omega
 
 theorem QCfg.S_add (c : QCfg) (hP : 64 ≤ c.P) : c.S + 28 = c.P ∧ 4 ≤ c.S := by
   simp only [QCfg.S]; omega
@@ -384,7 +399,7 @@ theorem sim_flush (c : QCfg) (hP : 64 ≤ c.P) (q : PQState) (a a' : ASpec) (o :
 
 theorem HInv_setR (S : Nat) (evs : List (List UInt8)) (F A : Nat) (q : PQState) (r' : RState)
     (h : HInv S evs F A q) : HInv S evs F A { q with r := r' } :=
-  ⟨h.tail, h.start, h.tailSet, h.headSet, h.readSet, h.startPos, h.head, h.inuse, h.totF, h.totA, h.le, h.headLt⟩
+  ⟨h.tail, h.start, h.tailSet, h.headSet, h.readSet, h.startPos, h.head, h.inuse, h.totF, h.totA, h.le, h.headLt, h.headGe⟩
 
 /-- a call that only changes the reader -/
 theorem QInv_setR (c : QCfg) (q : PQState) (a a' : ASpec) (r' : RState) (hI : QInv c q a)
